@@ -101,6 +101,8 @@ func roImage(variant string) *roObject {
 	}}
 }
 
+var bigProbe *signature.SignatureList
+
 func roDB(variant string) *roObject {
 	sigdbInit()
 	db := signature.NewSignatureDatabase()
@@ -155,6 +157,28 @@ func roDB(variant string) *roObject {
 		}
 		db = &nd
 	}
+	if variant == "big" {
+		// one list of 40 hashes in no particular order (a revocation list), decoded; the list-valued query asks about three of them
+		l := signature.NewSignatureList(guidOf(typeGUIDWire, "sha256"))
+		for k := 0; k < 40; k++ {
+			d := prbytes(fmt.Sprint("bighash", (k*17)%40), 32)
+			l.AppendBytes(guidOf(ownerGUIDWire, []string{"o1", "o2"}[k%2]), d)
+		}
+		nd, err := signature.ReadSignatureDatabase(bytes.NewReader(append(l.Bytes(), func() []byte {
+			x := signature.NewSignatureList(guidOf(typeGUIDWire, "x509"))
+			x.AppendBytes(guidOf(ownerGUIDWire, "o2"), sigdbData["c3"].bytes)
+			return x.Bytes()
+		}()...)))
+		if err != nil {
+			panic(err)
+		}
+		db = &nd
+		probe := signature.NewSignatureList(guidOf(typeGUIDWire, "sha256"))
+		for _, k := range []int{30, 3, 17} {
+			probe.AppendBytes(guidOf(ownerGUIDWire, []string{"o1", "o2"}[k%2]), prbytes(fmt.Sprint("bighash", (k*17)%40), 32))
+		}
+		bigProbe, _ = signature.ReadSignatureList(bytes.NewReader(probe.Bytes()))
+	}
 	q := func(t, o, d string) func() string {
 		return func() string {
 			g, ow := guidOf(typeGUIDWire, t), guidOf(ownerGUIDWire, o)
@@ -172,7 +196,12 @@ func roDB(variant string) *roObject {
 		"QueryHash":   q("sha256", "o2", "h2"),
 		"QueryCert":   q("x509", "o2", "c3"),
 		"QueryAbsent": q("sha256", "o1", "h2"),
-		"ExistsList":  func() string { return fmt.Sprint(db.Exists(guidOf(typeGUIDWire, "sha256"), lst)) },
+		"ExistsList": func() string {
+			if variant == "big" {
+				return fmt.Sprint(db.Exists(guidOf(typeGUIDWire, "sha256"), bigProbe), (*db)[0].ExistsInList(bigProbe))
+			}
+			return fmt.Sprint(db.Exists(guidOf(typeGUIDWire, "sha256"), lst))
+		},
 	}}
 }
 
